@@ -118,7 +118,7 @@ Proof.
 Qed.
 
 
-Require Import Pams.Sim Pams.SimInv Pams.SimBooks Pams.SimMarketLift.
+Require Import Pams.Sim Pams.SimInv Pams.SimBooks Pams.SimMarketLift Pams.SimFillLimits.
 
 (* NOTHING IS LOST IN ANY SIMULATION.  theories/SimMarketLift.v proves that a market of a run only ever changes through the Level-M
    operations (and a fundamental-price shock) and that the run's records naming it are its Level-M records, so EVERY invariant that
@@ -148,6 +148,16 @@ Theorem C04_every_market_invariant_holds_in_every_run : forall (I : market -> li
   valid_tr s -> forall x, In x (s_markets s) -> I (mk_m x) (of_mkt (m_id (mk_m x)) (truths (events_of s))).
 Proof. exact market_invariant_of_every_run. Qed.
 Print Assumptions C04_every_market_invariant_holds_in_every_run.
+
+(* accepted at most once, in every simulation: the ids of the acceptance records of a market, in the order of the run, are
+   0, 1, 2, ... up to the market's id counter - so no order object is ever accepted twice and ids are handed out consecutively *)
+Theorem C04_accepted_ids_consecutive_in_every_run : forall c tape batches funds,
+  NoDup (map mc_id (c_markets c)) ->
+  let s := run c tape batches funds in
+  valid_tr s -> forall x, In x (s_markets s) ->
+  accepted_ids (of_mkt (m_id (mk_m x)) (truths (events_of s))) = map Z.of_nat (seq 0 (Z.to_nat (m_next (mk_m x)))).
+Proof. exact Pams.SimFillLimits.accepted_ids_consecutive_in_every_run. Qed.
+Print Assumptions C04_accepted_ids_consecutive_in_every_run.
 
 Example C04_run_nonvacuous :
   let c := mkCfg [mkMC 0 (1#1) (100#1) None 1] [mkAC 0 false (1000#1) [(0, 10)]; mkAC 1 false (1000#1) [(0, 10)]]
